@@ -751,7 +751,13 @@ static int macroexpand1(
         janet_table_put(c->env, ml_kw, janet_wrap_array(c->lints));
     }
     Janet tempOut;
+    /* The macro may compile code itself (eval, compile), with a recursion budget of its own. Charge the
+     * depth this compilation holds to the interpreter's budget for nested C calls while the macro runs,
+     * so that nested compilations share one limit instead of multiplying theirs. */
+    int32_t held = JANET_RECURSION_GUARD - c->recursion_guard;
+    janet_vm.stackn += held;
     JanetSignal status = janet_continue(fiberp, janet_wrap_nil(), &tempOut);
+    janet_vm.stackn -= held;
     janet_table_put(c->env, mf_kw, janet_wrap_nil());
     janet_table_put(c->env, ml_kw, janet_wrap_nil());
     janet_gcunlock(lock);
